@@ -28,10 +28,18 @@ def norm(node):
         return "None"
     if isinstance(node, str):
         return node
+    cached = getattr(node, "_norm_text", None)
+    if cached is not None:
+        return cached
     try:
-        return ast.unparse(node)
+        text = ast.unparse(node)
     except Exception:  # pragma: no cover
-        return ast.dump(node)
+        text = ast.dump(node)
+    try:
+        node._norm_text = text       # the analysed trees are never mutated after indexing
+    except Exception:
+        pass
+    return text
 
 
 class Module(object):
